@@ -139,6 +139,12 @@ Theorem C16_fuel_sufficient :
 Proof. exact fuel_sufficient. Qed.
 Print Assumptions C16_fuel_sufficient.
 
+(* the two ways metacommands.repeat builds its result (join at once / add up one by one) are the same bytes *)
+Theorem C16_join_is_fold :
+  forall chunks : list (list Z), fold_left (@app Z) chunks [] = List.concat chunks.
+Proof. exact join_is_fold. Qed.
+Print Assumptions C16_join_is_fold.
+
 Theorem C16_fresh_body_coherent :
   forall F b, nf_block b = b -> coh_block F b.
 Proof. exact coh_block_fresh. Qed.
